@@ -452,3 +452,351 @@ Corollary read_written_slice num es : num < 2 ^ 32 -> Forall wf_entry es ->
   Ok (es, FinOk, {| r_rest := []; r_buf := []; r_next := false;
                     r_hdr := {| a_major := 0; a_minor := 0; a_number := num |} |}).
 Proof. intros Hn Hw. rewrite (proj1 (stream_slice_agree _)). apply read_written; assumption. Qed.
+
+(* ================================================================================================= *)
+(* 11, 12. damaged archives: truncation and a single altered byte                                      *)
+(* ================================================================================================= *)
+(* number of entries that lie wholly before byte offset n (n counted from the first entry) *)
+Fixpoint complete_within (es : list (list chunk)) (n : nat) : nat :=
+  match es with
+  | [] => 0
+  | e :: r => let L := length (ser_chunks e) in
+              if (L <=? n)%nat then S (complete_within r (n - L)) else 0
+  end.
+(* the same with n an offset into the archive file: signature + AHED chunk take 28 bytes *)
+Definition entries_complete_within (num : N) (es : list (list chunk)) (n : nat) : nat :=
+  complete_within es (n - 28)%nat.
+
+(* Both kinds of damage are treated at once: `dmg bs n` damages `bs` at offset n such that the part
+   before n is untouched and a chunk hit at an admissible inner offset makes the parser fail with `err`. *)
+Section Damage.
+Variable dmg : bytes -> nat -> bytes.
+Variable good : nat -> bool.
+Variable err : ekind.
+Hypothesis dmg_app_r : forall A B n, (length A <= n)%nat -> dmg (A ++ B) n = A ++ dmg B (n - length A).
+Hypothesis dmg_chunk : forall c rest n, wf_chunk c -> (n < length (ser_chunk c))%nat -> good n = true ->
+  rds (dmg (ser_chunk c ++ rest) n) = Err err.
+
+(* the offset falls into a chunk at an admissible inner offset *)
+Fixpoint pos_ok (cs : list chunk) (n : nat) : bool :=
+  match cs with
+  | [] => true
+  | c :: r => if (n <? length (ser_chunk c))%nat then good n else pos_ok r (n - length (ser_chunk c))
+  end.
+
+Lemma pos_ok_app_l a b : forall n, (n < length (ser_chunks a))%nat -> pos_ok (a ++ b) n = pos_ok a n.
+Proof.
+  induction a as [|c a IH]; intros n H; [cbn in H; lia|].
+  cbn [app pos_ok]. destruct (Nat.ltb_spec n (length (ser_chunk c))); [reflexivity|].
+  apply IH. rewrite ser_chunks_cons, app_length in H. lia.
+Qed.
+
+Lemma pos_ok_app_r a b : forall n, (length (ser_chunks a) <= n)%nat ->
+  pos_ok (a ++ b) n = pos_ok b (n - length (ser_chunks a)).
+Proof.
+  induction a as [|c a IH]; intros n H.
+  - cbn [app]. rewrite ser_chunks_nil. cbn [length]. rewrite Nat.sub_0_r. reflexivity.
+  - rewrite ser_chunks_cons, app_length in *. cbn [app pos_ok].
+    destruct (Nat.ltb_spec n (length (ser_chunk c))); [lia|].
+    rewrite IH by lia. f_equal. lia.
+Qed.
+
+Lemma bad_item last rest : wf_chunk last ->
+  forall body fuel acc nxt n, Forall wf_chunk body -> Forall (fun c => is_term c = false) body ->
+  (n < length (ser_chunks body ++ ser_chunk last))%nat -> pos_ok (body ++ [last]) n = true ->
+  (length body < fuel)%nat ->
+  next_item_loop rds fuel (dmg (ser_chunks body ++ ser_chunk last ++ rest) n) acc nxt = Err err.
+Proof.
+  intros Hl. induction body as [|c body IH]; intros fuel acc nxt n Hw Hn Hlt Hp Hf;
+    (destruct fuel as [|fuel]; [cbn [length] in Hf; lia|]); cbn [next_item_loop].
+  - rewrite ser_chunks_nil in *. cbn [app pos_ok] in *.
+    destruct (Nat.ltb_spec n (length (ser_chunk last))); [|lia].
+    rewrite dmg_chunk by assumption. reflexivity.
+  - inversion Hw as [|? ? Hc Hw']; subst. inversion Hn as [|? ? Hc' Hn']; subst.
+    rewrite ser_chunks_cons, <- app_assoc. rewrite ser_chunks_cons, <- app_assoc, app_length in Hlt.
+    cbn [app pos_ok] in Hp.
+    destruct (Nat.ltb_spec n (length (ser_chunk c))).
+    + rewrite dmg_chunk by assumption. reflexivity.
+    + rewrite dmg_app_r by assumption. rewrite read_chunk_ser by exact Hc. cbn [bind].
+      destruct (is_term_false c Hc') as (-> & -> & ->).
+      apply IH; try assumption; [lia|cbn [length] in Hf; lia].
+Qed.
+
+Lemma bad_raw_item e rest s n : wf_entry e -> r_rest s = dmg (ser_chunks e ++ rest) n ->
+  (n < length (ser_chunks e))%nat -> pos_ok e n = true -> next_raw_item rds s = Err err.
+Proof.
+  intros He Hr Hlt Hp. apply wf_entry_inv in He. destruct He as (body & last & -> & He & Hw & Hl & Hn).
+  unfold next_raw_item. rewrite Hr.
+  rewrite (next_item_loop_fuel rds read_chunk_shorter read_chunk_no_panic _
+             (S (length (dmg (ser_chunks (body ++ [last]) ++ rest) n)) + length body)) by lia.
+  rewrite ser_chunks_snoc in *. rewrite <- app_assoc.
+  rewrite (bad_item last rest Hl) by (try assumption; lia). reflexivity.
+Qed.
+
+Lemma bad_end_item s n : r_rest s = dmg finalize n -> (n < length finalize)%nat -> good n = true ->
+  next_raw_item rds s = Err err.
+Proof.
+  intros Hr Hlt Hg. unfold next_raw_item. rewrite Hr. cbn [next_item_loop].
+  rewrite finalize_eq. rewrite dmg_chunk; [reflexivity|exact wf_chunk_aend| |exact Hg].
+  rewrite finalize_eq, app_nil_r in Hlt. exact Hlt.
+Qed.
+
+Lemma bad_loop : forall es fuel s n, Forall wf_entry es -> r_buf s = [] ->
+  r_rest s = dmg (ser_entries es ++ finalize) n -> (n < length (ser_entries es ++ finalize))%nat ->
+  pos_ok (concat es ++ [mk AEND []]) n = true -> (length es < fuel)%nat ->
+  exists s', raw_entries_loop rds fuel s = (firstn (complete_within es n) es, FinErr err, s').
+Proof.
+  induction es as [|e es IH]; intros fuel s n Hw Hb Hr Hlt Hp Hf;
+    (destruct fuel as [|fuel]; [cbn [length] in Hf; lia|]); cbn [raw_entries_loop].
+  - cbn [ser_entries map concat app] in *.
+    rewrite (bad_end_item s n Hr Hlt).
+    + exists s. reflexivity.
+    + cbn [pos_ok] in Hp. change (ser_chunk (mk AEND [])) with finalize in Hp.
+      destruct (Nat.ltb_spec n (length finalize)); [exact Hp|lia].
+  - inversion Hw as [|? ? He Hw']; subst.
+    rewrite ser_entries_cons, <- app_assoc in Hr, Hlt. rewrite app_length in Hlt.
+    cbn [concat] in Hp. rewrite <- app_assoc in Hp.
+    cbn [complete_within]. cbv zeta.
+    destruct (Nat.leb_spec (length (ser_chunks e)) n) as [Hle|Hgt].
+    + rewrite dmg_app_r in Hr by exact Hle. rewrite pos_ok_app_r in Hp by exact Hle.
+      rewrite (good_raw_item e _ s He Hr Hb).
+      destruct (IH fuel {| r_rest := dmg (ser_entries es ++ finalize) (n - length (ser_chunks e))%nat;
+                           r_buf := []; r_next := r_next s; r_hdr := r_hdr s |} (n - length (ser_chunks e))%nat)
+        as [s' Es']; try assumption; try reflexivity; [lia|cbn [length] in Hf; lia|].
+      rewrite Es'. exists s'. reflexivity.
+    + rewrite pos_ok_app_l in Hp by exact Hgt.
+      rewrite (bad_raw_item e _ s n He Hr Hgt Hp). exists s. reflexivity.
+Qed.
+
+(* the damaged archive, for an offset behind the header *)
+Lemma bad_archive num es n : num < 2 ^ 32 -> Forall wf_entry es ->
+  (28 <= n < length (write_raw_archive num es))%nat ->
+  pos_ok (concat es ++ [mk AEND []]) (n - 28)%nat = true ->
+  exists st, raw_entries rds (dmg (write_raw_archive num es) n) =
+             Ok (firstn (entries_complete_within num es n) es, FinErr err, st).
+Proof.
+  intros Hn Hw [H1 H2] Hp. unfold raw_entries.
+  rewrite write_raw_archive_eq in *. rewrite app_length, write_header_length in H2.
+  rewrite dmg_app_r by (rewrite write_header_length; exact H1). rewrite write_header_length.
+  rewrite open_written by exact Hn. cbn [bind].
+  set (s0 := {| r_rest := dmg (ser_entries es ++ finalize) (n - 28)%nat; r_buf := []; r_next := false;
+                r_hdr := {| a_major := 0; a_minor := 0; a_number := num |} |}).
+  set (F := S (length (write_header num ++ dmg (ser_entries es ++ finalize) (n - 28)%nat))).
+  rewrite (raw_entries_loop_fuel rds read_chunk_shorter read_chunk_no_panic F (F + length es)%nat s0).
+  - destruct (bad_loop es (F + length es)%nat s0 (n - 28)%nat) as [s' Es']; try assumption; try reflexivity; try lia.
+    rewrite Es'. exists s'. reflexivity.
+  - unfold F, s0. cbn [r_rest]. rewrite app_length. lia.
+  - unfold F, s0. cbn [r_rest]. rewrite app_length. lia.
+Qed.
+End Damage.
+
+(* ---- 11. truncation ------------------------------------------------------------------------------ *)
+Lemma firstn_app_r {A} (a b : list A) n : (length a <= n)%nat -> firstn n (a ++ b) = a ++ firstn (n - length a) b.
+Proof. intros H. rewrite firstn_app, firstn_all2 by exact H. reflexivity. Qed.
+
+Lemma firstn_app_l {A} (a b : list A) n : (n <= length a)%nat -> firstn n (a ++ b) = firstn n a.
+Proof.
+  intros H. rewrite firstn_app. replace (n - length a)%nat with 0%nat by lia. cbn [firstn]. apply app_nil_r.
+Qed.
+
+Lemma trunc_chunk c rest n : wf_chunk c -> (n < length (ser_chunk c))%nat -> true = true ->
+  rds (firstn n (ser_chunk c ++ rest)) = Err UnexpectedEof.
+Proof. intros Hc Hn _. rewrite firstn_app_l by lia. apply read_chunk_trunc; assumption. Qed.
+
+Lemma pos_ok_true cs : forall n, pos_ok (fun _ => true) cs n = true.
+Proof. induction cs as [|c cs IH]; intros n; cbn [pos_ok]; [reflexivity|]. destruct (_ <? _)%nat; [reflexivity|apply IH]. Qed.
+
+Lemma truncation_header num rest n : (n < 28)%nat ->
+  raw_entries rds (firstn n (write_header num ++ rest)) = Err UnexpectedEof.
+Proof.
+  intros H. unfold raw_entries, open_archive, read_header.
+  rewrite write_header_eq, <- app_assoc.
+  destruct (Nat.lt_ge_cases n 8) as [H8|H8].
+  - unfold read_sig. rewrite take_short; [reflexivity|]. rewrite firstn_length. lia.
+  - rewrite firstn_app_r by exact H8. rewrite read_sig_app. cbn [bind].
+    rewrite trunc_chunk; [reflexivity|apply wf_chunk_hdr| |reflexivity].
+    change (length sig) with 8%nat.
+    pose proof (write_header_length num) as L. rewrite write_header_eq, app_length in L.
+    change (length sig) with 8%nat in L. lia.
+Qed.
+
+Lemma truncation_entries num es n : num < 2 ^ 32 -> Forall wf_entry es ->
+  (28 <= n < length (write_raw_archive num es))%nat ->
+  exists st, raw_entries rds (firstn n (write_raw_archive num es)) =
+             Ok (firstn (entries_complete_within num es n) es, FinErr UnexpectedEof, st).
+Proof.
+  intros Hn Hw Hr.
+  apply (bad_archive (fun bs n => firstn n bs) (fun _ => true) UnexpectedEof); try assumption.
+  - intros A B k Hk. apply firstn_app_r. exact Hk.
+  - exact trunc_chunk.
+  - apply pos_ok_true.
+Qed.
+
+(* Iteration over a truncated archive ends with UnexpectedEof — never Ok, which only AEND produces —
+   and yields exactly the entries that are complete *)
+Theorem truncation num es n : Forall wf_entry es -> num < 2 ^ 32 ->
+  (n < length (write_raw_archive num es))%nat ->
+  match raw_entries rds (firstn n (write_raw_archive num es)) with
+  | Err UnexpectedEof => (n < 28)%nat
+  | Ok (got, FinErr UnexpectedEof, _) => (28 <= n)%nat /\ got = firstn (entries_complete_within num es n) es
+  | _ => False
+  end.
+Proof.
+  intros Hw Hn Hlt. destruct (Nat.lt_ge_cases n 28) as [H|H].
+  - rewrite write_raw_archive_eq, truncation_header by exact H. exact H.
+  - destruct (truncation_entries num es n Hn Hw (conj H Hlt)) as [st ->]. split; [exact H|reflexivity].
+Qed.
+
+(* ---- 12. one altered byte ------------------------------------------------------------------------- *)
+(* the offset (counted from the first chunk) falls into the 4-byte length field of a chunk *)
+Fixpoint in_len_field (cs : list chunk) (i : nat) : bool :=
+  match cs with
+  | [] => false
+  | c :: r => if (i <? length (ser_chunk c))%nat then (i <? 4)%nat else in_len_field r (i - length (ser_chunk c))
+  end.
+Definition archive_chunks (num : N) (es : list (list chunk)) : list chunk :=
+  hdr_chunk num :: concat es ++ [mk AEND []].
+(* i an offset into the archive file: the chunks start behind the 8-byte signature *)
+Definition in_length_field (num : N) (es : list (list chunk)) (i : nat) : bool :=
+  in_len_field (archive_chunks num es) (i - 8)%nat.
+
+Lemma ser_entries_concat es : ser_entries es = ser_chunks (concat es).
+Proof.
+  induction es as [|e es IH]; [reflexivity|]. rewrite ser_entries_cons, IH. cbn [concat]. rewrite ser_chunks_app. reflexivity.
+Qed.
+
+Lemma write_raw_archive_chunks num es : write_raw_archive num es = sig ++ ser_chunks (archive_chunks num es).
+Proof.
+  rewrite write_raw_archive_eq, write_header_eq. unfold archive_chunks.
+  rewrite ser_chunks_cons, ser_chunks_snoc, ser_entries_concat, <- app_assoc. reflexivity.
+Qed.
+
+Lemma pos_ok_len_field cs : forall i, pos_ok (fun n => (4 <=? n)%nat) cs i = negb (in_len_field cs i).
+Proof.
+  induction cs as [|c cs IH]; intros i; cbn [pos_ok in_len_field]; [reflexivity|].
+  destruct (_ <? length _)%nat; [|apply IH].
+  destruct (Nat.leb_spec 4 i), (Nat.ltb_spec i 4); try reflexivity; lia.
+Qed.
+
+Section Alter.
+Variable m : N.
+Hypothesis m_range : 0 < m < 256.
+
+Lemma alter_chunk c rest n : wf_chunk c -> (n < length (ser_chunk c))%nat -> (4 <=? n)%nat = true ->
+  rds (xor_at (ser_chunk c ++ rest) n m) = Err InvalidData.
+Proof. intros Hc Hn H4. apply Nat.leb_le in H4. apply read_chunk_altered; [exact Hc|lia|exact m_range]. Qed.
+
+(* holds for every chunk parser: the signature check comes first *)
+Theorem alter_signature (rd : reader) bs i : (i < 8)%nat ->
+  raw_entries rd (xor_at (sig ++ bs) i m) = Err InvalidData.
+Proof.
+  intros H. unfold raw_entries, open_archive, read_header, read_sig.
+  rewrite xor_at_app_l by exact H. rewrite take_app by (rewrite xor_at_length; reflexivity). cbn [bind].
+  destruct (bytes_eqb (xor_at sig i m) sig) eqn:E; [|reflexivity].
+  apply bytes_eqb_eq in E. exfalso. revert E. apply xor_at_neq; [exact H|exact m_range].
+Qed.
+
+Lemma alter_header num rest i : (12 <= i < 28)%nat ->
+  raw_entries rds (xor_at (write_header num ++ rest) i m) = Err InvalidData.
+Proof.
+  intros [H1 H2]. unfold raw_entries, open_archive, read_header.
+  rewrite write_header_eq, <- app_assoc. rewrite xor_at_app_r by (change (length sig) with 8%nat; lia).
+  rewrite read_sig_app. cbn [bind]. change (length sig) with 8%nat.
+  pose proof (write_header_length num) as L. rewrite write_header_eq, app_length in L.
+  change (length sig) with 8%nat in L.
+  rewrite read_chunk_altered; [reflexivity|apply wf_chunk_hdr|lia|exact m_range].
+Qed.
+
+Lemma alter_entries num es i : num < 2 ^ 32 -> Forall wf_entry es ->
+  (28 <= i < length (write_raw_archive num es))%nat -> in_length_field num es i = false ->
+  exists st, raw_entries rds (xor_at (write_raw_archive num es) i m) =
+             Ok (firstn (entries_complete_within num es i) es, FinErr InvalidData, st).
+Proof.
+  intros Hn Hw Hr Hf.
+  apply (bad_archive (fun bs n => xor_at bs n m) (fun n => (4 <=? n)%nat) InvalidData); try assumption.
+  - intros A B k Hk. apply xor_at_app_r. exact Hk.
+  - exact alter_chunk.
+  - rewrite pos_ok_len_field. unfold in_length_field, archive_chunks in Hf. cbn [in_len_field] in Hf.
+    pose proof (write_header_length num) as L. rewrite write_header_eq, app_length in L.
+    change (length sig) with 8%nat in L.
+    destruct (Nat.ltb_spec (i - 8)%nat (length (ser_chunk (hdr_chunk num)))); [lia|].
+    replace (i - 28)%nat with (i - 8 - length (ser_chunk (hdr_chunk num)))%nat by lia.
+    rewrite Hf. reflexivity.
+Qed.
+End Alter.
+
+(* one altered byte anywhere behind the signature, outside the chunk length fields, is detected:
+   the iteration ends with InvalidData and yields exactly the entries that lie wholly before it *)
+Theorem alter_detected num es i m : Forall wf_entry es -> num < 2 ^ 32 -> 0 < m < 256 ->
+  (8 <= i < length (write_raw_archive num es))%nat -> in_length_field num es i = false ->
+  match raw_entries rds (xor_at (write_raw_archive num es) i m) with
+  | Err InvalidData => (i < 28)%nat
+  | Ok (got, FinErr InvalidData, _) => (28 <= i)%nat /\ got = firstn (entries_complete_within num es i) es
+  | _ => False
+  end.
+Proof.
+  intros Hw Hn Hm [H8 Hlt] Hf. destruct (Nat.lt_ge_cases i 28) as [H|H].
+  - assert (12 <= i)%nat.
+    { unfold in_length_field, archive_chunks in Hf. cbn [in_len_field] in Hf.
+      pose proof (write_header_length num) as L. rewrite write_header_eq, app_length in L.
+      change (length sig) with 8%nat in L.
+      destruct (Nat.ltb_spec (i - 8)%nat (length (ser_chunk (hdr_chunk num)))); [|lia].
+      destruct (Nat.ltb_spec (i - 8)%nat 4); [discriminate Hf|lia]. }
+    rewrite write_raw_archive_eq, (alter_header m Hm) by lia. exact H.
+  - destruct (alter_entries m Hm num es i Hn Hw (conj H Hlt) Hf) as [st ->]. split; [exact H|reflexivity].
+Qed.
+
+Theorem alter_signature_written num es i m : (i < 8)%nat -> 0 < m < 256 ->
+  forall rd, raw_entries rd (xor_at (write_raw_archive num es) i m) = Err InvalidData.
+Proof.
+  intros H Hm rd. rewrite write_raw_archive_eq, write_header_eq, <- !app_assoc. apply alter_signature; assumption.
+Qed.
+
+(* ---- examples: a concrete two-entry archive ------------------------------------------------------- *)
+Definition ex_e1 : list chunk := [mk FHED (lit "hdr1"); mk FDAT [xaa; xbb; xcc]; mk (T "zzZz") [x01]; mk FEND []].
+Definition ex_e2 : list chunk := [mk SHED (lit "hdr2"); mk SDAT []; mk SEND []].
+Definition ex_arch : bytes := write_raw_archive 7 [ex_e1; ex_e2].
+
+Example ex_wf : Forall wf_entry [ex_e1; ex_e2].
+Proof.
+  repeat constructor.
+  - exists [mk FHED (lit "hdr1"); mk FDAT [xaa; xbb; xcc]; mk (T "zzZz") [x01]], (mk FEND []).
+    repeat split; repeat constructor; vm_compute; reflexivity.
+  - exists [mk SHED (lit "hdr2"); mk SDAT []], (mk SEND []).
+    repeat split; repeat constructor; vm_compute; reflexivity.
+Qed.
+
+Example ex_arch_length : length ex_arch = (28 + 56 + 40 + 12)%nat.
+Proof. vm_compute. reflexivity. Qed.
+
+Example ex_read : exists st, raw_entries rds ex_arch = Ok ([ex_e1; ex_e2], FinOk, st).
+Proof. eexists. vm_compute. reflexivity. Qed.
+
+(* cut inside the second entry: the first entry comes out, then UnexpectedEof *)
+Example ex_trunc : entries_complete_within 7 [ex_e1; ex_e2] 120 = 1%nat /\
+  exists st, raw_entries rds (firstn 120 ex_arch) = Ok ([ex_e1], FinErr UnexpectedEof, st).
+Proof. split; [vm_compute; reflexivity|]. eexists. vm_compute. reflexivity. Qed.
+
+(* cut exactly behind the last entry (AEND missing): both entries, still UnexpectedEof, not Ok *)
+Example ex_trunc_no_aend : exists st,
+  raw_entries rds (firstn 124 ex_arch) = Ok ([ex_e1; ex_e2], FinErr UnexpectedEof, st).
+Proof. eexists. vm_compute. reflexivity. Qed.
+
+Example ex_trunc_header : raw_entries rds (firstn 27 ex_arch) = Err UnexpectedEof.
+Proof. vm_compute. reflexivity. Qed.
+
+(* byte 105 lies in the type field of the second entry's second chunk: first entry, then InvalidData *)
+Example ex_alter : in_length_field 7 [ex_e1; ex_e2] 105 = false /\
+  exists st, raw_entries rds (xor_at ex_arch 105 1) = Ok ([ex_e1], FinErr InvalidData, st).
+Proof. split; [vm_compute; reflexivity|]. eexists. vm_compute. reflexivity. Qed.
+
+Example ex_alter_aend : in_length_field 7 [ex_e1; ex_e2] 129 = false /\
+  exists st, raw_entries rds (xor_at ex_arch 129 255) = Ok ([ex_e1; ex_e2], FinErr InvalidData, st).
+Proof. split; [vm_compute; reflexivity|]. eexists. vm_compute. reflexivity. Qed.
+
+Example ex_alter_sig : raw_entries rds (xor_at ex_arch 3 1) = Err InvalidData.
+Proof. vm_compute. reflexivity. Qed.
+
+Example ex_len_field : in_length_field 7 [ex_e1; ex_e2] 84 = true /\ in_length_field 7 [ex_e1; ex_e2] 87 = true /\
+                       in_length_field 7 [ex_e1; ex_e2] 88 = false /\ in_length_field 7 [ex_e1; ex_e2] 8 = true.
+Proof. vm_compute. repeat split; reflexivity. Qed.
